@@ -23,3 +23,48 @@ func waitPruneIdleHook(before int64) bool {
 	}
 	return false
 }
+
+// ---- "a commit interrupts a running prune after k steps" (C20 scenario 2b) ----
+
+// pruneHoldArm makes loop (0 = leaves, 1 = branches) stop after k pruning steps of the next prune request.
+func pruneHoldArm(loop int, k int64) {
+	for l := 0; l < 2; l++ {
+		iavl2.VerifSteps[l].Store(0)
+		iavl2.VerifHolding[l].Store(false)
+		iavl2.VerifHoldAfter[l].Store(0)
+	}
+	iavl2.VerifHoldAfter[loop].Store(k + 1)
+}
+
+func pruneLoopIdle(loop int) int64 { return iavl2.VerifPruneIdleLoop[loop].Load() }
+
+// pruneHoldWait waits until the armed loop holds (true) or has finished its request before reaching the hold
+// (false, the prune had fewer than k steps); ok=false: neither happened within the time limit.
+func pruneHoldWait(loop int, idleBefore int64) (holding bool, ok bool) {
+	deadline := time.Now().Add(20 * time.Second)
+	for time.Now().Before(deadline) {
+		if iavl2.VerifHolding[loop].Load() {
+			return true, true
+		}
+		if iavl2.VerifPruneIdleLoop[loop].Load() > idleBefore {
+			return false, true
+		}
+		time.Sleep(100 * time.Microsecond)
+	}
+	return false, false
+}
+
+// pruneHoldRelease lets the loops run again and waits until both have finished their requests.
+func pruneHoldRelease(idleBefore [2]int64) bool {
+	for l := 0; l < 2; l++ {
+		iavl2.VerifHoldAfter[l].Store(0)
+	}
+	deadline := time.Now().Add(20 * time.Second)
+	for time.Now().Before(deadline) {
+		if iavl2.VerifPruneIdleLoop[0].Load() > idleBefore[0] && iavl2.VerifPruneIdleLoop[1].Load() > idleBefore[1] {
+			return true
+		}
+		time.Sleep(200 * time.Microsecond)
+	}
+	return false
+}
